@@ -685,8 +685,8 @@ func mutateText(text string, rng *rand.Rand) string {
 			} else if c := strings.IndexByte(l, ':'); c >= 0 {
 				lines[i] = l[:c+1] + hv
 			}
-		case 6: // blank the line
-			lines[i] = ""
+		case 6: // blank the line, or leave only white space on it
+			lines[i] = []string{"", "", " ", "\t", " \r", "   "}[rng.Intn(6)]
 		case 7: // replace a URI line by a tag-like one or vice versa
 			if strings.HasPrefix(lines[i], "#") {
 				lines[i] = lines[i][1:]
